@@ -90,13 +90,12 @@ Lemma thief_tick_nohold m pc ws pc' g :
   thief_tick m pc = Some (ws, pc', g) -> holds_t pc = false -> holds_t pc' = false ->
   ws = [] /\ g = GNone.
 Proof.
-  intros E H H'. destruct pc; cbn in *; try discriminate.
-  - destruct (top m - base m <=? 0); inversion E; auto.
-  - destruct (lck m =? 0); [inversion E; subst; discriminate|].
-    destruct m0; inversion E; auto.
-  - destruct (lck m =? 0); inversion E; subst; auto; discriminate.
-  - destruct (base m <? top m); inversion E; auto.
-  - inversion E; auto.
+  intros E H H'. destruct pc; cbn [thief_tick holds_t] in *; try discriminate;
+    unfold peek_start in *;
+    repeat match type of E with
+           | context [if ?c then _ else _] => destruct c
+           | context [match ?x with _ => _ end] => destruct x
+           end; try discriminate; inversion E; subst; cbn [holds_t] in *; try discriminate; auto.
 Qed.
 
 (** entering the critical section requires the lock to be free *)
@@ -104,12 +103,13 @@ Lemma thief_tick_acquire m pc ws pc' g :
   thief_tick m pc = Some (ws, pc', g) -> holds_t pc = false -> holds_t pc' = true ->
   lck m = 0.
 Proof.
-  intros E H H'. destruct pc; cbn in *; try discriminate.
-  - destruct (top m - base m <=? 0); inversion E; subst; discriminate.
-  - destruct (Z.eqb_spec (lck m) 0); auto. destruct m0; inversion E; subst; discriminate.
-  - destruct (Z.eqb_spec (lck m) 0); auto. inversion E; subst; discriminate.
-  - destruct (base m <? top m); inversion E; subst; discriminate.
-  - inversion E; subst; discriminate.
+  intros E H H'. destruct pc; cbn [thief_tick holds_t] in *; try discriminate;
+    unfold peek_start in *;
+    repeat match type of E with
+           | context [if lck m =? 0 then _ else _] => destruct (Z.eqb_spec (lck m) 0); [assumption|]
+           | context [if ?c then _ else _] => destruct c
+           | context [match ?x with _ => _ end] => destruct x
+           end; try discriminate; inversion E; subst; cbn [holds_t] in *; try discriminate; auto.
 Qed.
 
 Lemma Core_owner_call m sz h P R o :
@@ -123,9 +123,8 @@ Proof. intros C. core_open C; core_goal. Qed.
 
 Lemma thief_call_nohold m o : holds_t (thief_call m o) = false.
 Proof.
-  destruct o; cbn; auto.
-  - destruct (top m - base m <=? 0); reflexivity.
-  - destruct (top m - base m <=? 0); reflexivity.
+  destruct o; cbn [thief_call]; unfold peek_start;
+    repeat match goal with |- context [if ?c then _ else _] => destruct c end; reflexivity.
 Qed.
 
 Theorem step_Inv s a s' : Inv s -> step s a = Some s' -> Inv s'.
@@ -424,8 +423,8 @@ Lemma Dloc_step m0 m pc ws pc' g :
   Dloc m0 (apply_wrs m ws) pc' /\ g = GNone.
 Proof.
   intros D E. destruct m0 as [t0 b0 l0 p0 s0 c0].
-  destruct pc as [| | |md|md|md b|md b|md b|md b| | | | | | |]; cbn [Dloc] in D; try contradiction;
-    try (destruct md as [|[|]]; try contradiction); cbn [thief_tick] in E; try discriminate.
+  destruct pc as [| | |md|md|md b|md b|md b|md b| | | | | | | | | | ]; cbn [Dloc] in D; try contradiction;
+    try (destruct md as [|[|]|]; try contradiction); cbn [thief_tick] in E; try discriminate.
   - subst m. cbn in *. destruct (Z.eqb_spec l0 0) as [->|]; inversion E; subst; cbn; auto.
   - destruct D as (L & ->). inversion E; subst. cbn in *. auto.
   - destruct D as (L & -> & ->). inversion E; subst. cbn in *. auto.
@@ -466,6 +465,74 @@ Proof.
   destruct (Dloc_titer _ _ _ _ _ _ _ _ _ _ D0 Et) as (D1 & -> & ->).
   rewrite Hd in I2. inversion I2; subst pc'. cbn in D1. destruct D1 as [-> ->].
   repeat split; auto. intros j Hj. rewrite (I8 j Hj). cbn. apply nth_error_set_nth_neq; auto.
+Qed.
+
+(** ** The wsapi peek (hint-cache refill with the take-and-roll-back idiom) never changes the
+    queue: top, base, slots and lock are as before; only the hint cache may differ *)
+
+Definition qeq (m m0 : mem) : Prop := top m = top m0 /\ base m = base m0 /\ ptr m = ptr m0.
+
+Definition Ploc (m0 m : mem) (pc : tpc) : Prop :=
+  match pc with
+  | TLock MP | TPeekSeq | TDone _ => qeq m m0 /\ lck m = lck m0
+  | TPeekCheck | TReadBase MP | TUnlockP => qeq m m0 /\ lck m0 = 0 /\ lck m = 1
+  | TWriteBase MP b => qeq m m0 /\ lck m0 = 0 /\ lck m = 1 /\ b = base m0
+  | TReadTop MP b | TSlot MP b | TRollback MP b =>
+      top m = top m0 /\ ptr m = ptr m0 /\ base m = b + 1 /\ b = base m0 /\ lck m0 = 0 /\ lck m = 1
+  | _ => False
+  end.
+
+Lemma Ploc_step m0 m pc ws pc' g :
+  Ploc m0 m pc -> thief_tick m pc = Some (ws, pc', g) ->
+  Ploc m0 (apply_wrs m ws) pc' /\ g = GNone.
+Proof.
+  intros D E. unfold qeq in *.
+  destruct pc as [| | |md|md|md b|md b|md b|md b| | | | | | | | | | ]; cbn [Ploc] in D; try contradiction;
+    try (destruct md as [|[|]|]; try contradiction); cbn [thief_tick] in E; try discriminate;
+    unfold peek_start in E;
+    repeat match type of E with
+           | context [if lck m =? 0 then _ else _] => destruct (Z.eqb_spec (lck m) 0)
+           | context [if ?c then _ else _] => destruct c
+           end; inversion E; subst; clear E; cbn [Ploc]; unfold qeq in *; mem_cbn;
+    intuition (try lia; try congruence).
+Qed.
+
+Lemma Ploc_titer m0 : forall k m pc P R m' pc' P' R',
+  Ploc m0 m pc -> titer k m pc P R = (m', pc', P', R') ->
+  Ploc m0 m' pc' /\ P' = P /\ R' = R.
+Proof.
+  induction k as [|k IH]; intros m pc P R m' pc' P' R' D E; cbn [titer] in E.
+  - inversion E; subst; auto.
+  - destruct (thief_tick m pc) as [[[ws pc1] g]|] eqn:Et.
+    + destruct (Ploc_step _ _ _ _ _ _ D Et) as [D1 ->]. cbn in E. eapply IH; eauto.
+    + eapply IH; eauto.
+Qed.
+
+Theorem peek_harmless s i k r :
+  aborted s = false -> nth_error (thv s) i = Some TIdle ->
+  let s' := run step (solo i WPeek k) s in
+  nth_error (thv s') i = Some (TDone r) ->
+  top (mm s') = top (mm s) /\ base (mm s') = base (mm s) /\ ptr (mm s') = ptr (mm s) /\
+  lck (mm s') = lck (mm s) /\ pushed s' = pushed s /\ returned s' = returned s /\
+  own s' = own s /\ (forall j, j <> i -> nth_error (thv s') j = nth_error (thv s) j).
+Proof.
+  intros Ha Hi s' Hd. unfold s' in *. rewrite run_solo in * by auto.
+  set (s1 := mkState (mm s) (qsize s) (own s) (set_nth (thv s) i (thief_call (mm s) WPeek))
+                     (pushed s) (returned s) false) in *.
+  assert (Hi1 : nth_error (thv s1) i = Some (thief_call (mm s) WPeek))
+    by (eapply nth_error_set_nth_eq; eauto).
+  destruct (titer k (mm s1) (thief_call (mm s) WPeek) (pushed s1) (returned s1))
+    as [[[m' pc'] P'] R'] eqn:Et.
+  pose proof (run_solo_ticks i k s1 _ eq_refl Hi1 _ _ _ _ Et) as I. cbv zeta in I.
+  remember (run step (repeat (S i, Tick) k) s1) as sf eqn:Esf. clear Esf.
+  destruct I as (I1 & I2 & I3 & I4 & I5 & I6 & I7 & I8).
+  assert (D0 : Ploc (mm s) (mm s1) (thief_call (mm s) WPeek)).
+  { cbn [thief_call]. unfold peek_start, s1. cbn [mm].
+    repeat match goal with |- context [if ?c then _ else _] => destruct c end;
+      cbn [Ploc]; unfold qeq; auto. }
+  destruct (Ploc_titer _ _ _ _ _ _ _ _ _ _ D0 Et) as (D1 & -> & ->).
+  rewrite Hd in I2. inversion I2; subst pc'. cbn [Ploc] in D1. destruct D1 as [(Q1 & Q2 & Q3) Q4].
+  rewrite I1. repeat split; auto. intros j Hj. rewrite (I8 j Hj). cbn. apply nth_error_set_nth_neq; auto.
 Qed.
 
 (** ** A thief alone on a non-empty quiescent queue gets the oldest item *)
@@ -620,3 +687,9 @@ Qed.
 
 (** sample schedules for the non-vacuity examples *)
 Definition do_push (x : Z) : list actor := [(O, CallO (Push x)); (O, Tick); (O, Tick); (O, Tick); (O, Ret)].
+
+(** two pushes, then a pop and a take race while a second thief passes an item in *)
+Definition ex_sched : list actor :=
+  do_push 1 ++ do_push 2 ++
+  [(O, CallO Pop); (1%nat, CallT Take); (O, Tick); (1%nat, Tick); (O, Tick); (1%nat, Tick);
+   (O, Tick); (1%nat, Tick); (2%nat, CallT (Pass 7)); (1%nat, Tick); (O, Tick); (1%nat, Tick)].
